@@ -55,10 +55,10 @@ impl Monitor for C16 {
         "cases = seeded live universes without favored/locked (not representable), half of them renumbered into SPARSE id spaces (holes in every id space), a problem over single version sets, random seed subsets of names / version sets / solvables, and m = 0..5 add_package_requirement calls ('*' or a version substring). Checked for the snapshot and for its serde_json round trip: (1) capture succeeds; (2) every captured version set has the live name / display / matching set; (3) per package the snapshot `order` reproduces the live sort_candidates order; (4) added version sets get ids that are not captured ids and are pairwise distinct, and afterwards every captured version set still answers (name, display, filter) as before; (5) solving the problem through the SnapshotProvider gives the live verdict and a solution valid against the LIVE data; (6) the highest-numbered captured version set can be solved for; (7) solving for an added '*' version set agrees with the live provider on an all-versions set. distinct = content hash; non-trivial = distinct sparse-id case whose highest captured version set was solved for".into()
     }
     fn cases(&self, tier: Tier) -> u64 {
-        tier.pick(12_000, 600_000)
+        tier.pick(48_000, 960_000)
     }
     fn floor(&self, tier: Tier) -> u64 {
-        tier.pick(1_500, 60_000)
+        tier.pick(3_000, 30_000)
     }
     fn generate(&self, r: &mut Rng, _tier: Tier, _i: u64) -> C16Case {
         let (name, cfg) = pick_family(r, FAMILIES);
